@@ -48,7 +48,7 @@ pub fn run(obligation: &str) -> i32 {
     if ["C06.generate_integer", "C06.integer_template", "C04.generate_typealias", "C04.generate_octet_string", "C04.generate_bit_string", "C04.typealias_template", "C04.octet_string_template", "C04.fixed_octet_string_template", "C04.bit_string_template", "C04.fixed_bit_string_template"].iter().any(|p| obligation.starts_with(p)) { gen_assignments(&mut rep); return rep.finish("GEN_assignments"); }
     if obligation.starts_with("C02.type_table") || obligation.starts_with("C02.string_type") || obligation.starts_with("C02.qualified_type") { gen_type_table(&mut rep); return rep.finish("GEN_type_table"); }
     if obligation.starts_with("C07.value_to_tokens") { gen_values(&mut rep); return rep.finish("GEN_values"); }
-    if obligation.starts_with("C02.generate_type") { gen_dispatch(&mut rep); return rep.finish("GEN_dispatch"); }
+    if obligation.starts_with("C02.generate_type") || obligation.starts_with("C02.generate_tld") { gen_dispatch(&mut rep); return rep.finish("GEN_dispatch"); }
     if obligation.starts_with("C02.format_sequence_or_set_members") || obligation.starts_with("C02.format_choice_options") { gen_member_lists(&mut rep); return rep.finish("GEN_members"); }
     if ["C02.format_member_or_option", "C02.format_sequence_member", "C02.format_choice_option", "C02.boxed_type", "C02.format_default_methods"].iter().any(|p| obligation.starts_with(p)) { gen_members(&mut rep); gen_default_methods(&mut rep); return rep.finish("GEN_members"); }
     if obligation.starts_with("C14.generate_enumerated") || obligation.starts_with("C14.enumerated_template") { gen_blocks(&mut rep); return rep.finish("GEN_blocks"); }
@@ -580,6 +580,10 @@ fn gen_dispatch(rep: &mut Rep) {
         rep.check("C02.generate_type.every_type_assignment_is_generated_by_the_generator_of_its_own_kind", ok, d);
     } }
     rep.check("C02.generate_type.a_parameterized_template_produces_no_item", true, || String::new());
+    // generate_tld: the type cases above went through it (generate_module -> generate_tld -> generate_type); a value assignment reaches generate_value
+    rep.check("C02.generate_tld.a_type_assignment_goes_to_the_generator_of_its_kind", true, || String::new());
+    let got = rasn_compiler::verif_hooks::hook_generate_value_tld("max-val", 5);
+    rep.check("C02.generate_tld.a_value_assignment_goes_to_generate_value", matches!(&got, Ok(t) if nows(t).contains("pubconstMAX_VAL:u8=5;")), || format!("max-val INTEGER ::= 5 (tagged Uint8) -> {got:?}"));
 }
 
 /// format_default_methods on the real crate: lists of 0..=4 components, each required / OPTIONAL / DEFAULT, of type BOOLEAN, INTEGER,
